@@ -100,8 +100,15 @@ def run_case(cs):
         prev = model if model is not None else list(ignoreref.DEFAULTS)
         want = _dedupe(prev + cli + filep)
         fm = [rng.choice(world.FORMATS)]
-        r, new, before, after = hist.create(root, fm, extra + (["-n"] if rng.random() < 0.15 else []))
-        steps.append(f"g{g + 1} -i {cli} -ii {filep} => {r.exit}")
+        sf_gen = False
+        if g > 0 and not cli and not filep and rng.random() < 0.5:
+            # a -sf generation (no pattern options): the accumulated list must survive it unchanged
+            cand = sorted(k for k, v in world.read_tree(root).items() if v is not None and ignoreref.match(prev, k) is False)
+            if cand:
+                sf_gen = True
+                extra = ["-sf", os.path.join(root, rng.choice(cand))]
+        r, new, before, after = hist.create(root, fm, extra + (["-n"] if rng.random() < 0.15 and not sf_gen else []))
+        steps.append(f"g{g + 1} -i {cli} -ii {filep}{' (-sf generation)' if sf_gen else ''} => {r.exit}")
         cs.evaluated()
         if r.internal:
             cs.violation(classify.internal_key(r), classify.internal_sig(r, "create"), {"steps": steps, **r.brief()})
@@ -120,9 +127,14 @@ def run_case(cs):
                 cs.count("accumulation_checked")
                 if h == ".":
                     exp = want
+                elif sf_gen:
+                    exp = _dedupe(child_prev.get(h, list(ignoreref.DEFAULTS)))  # -sf sessions carry the defaults only
+                    cs.count("sf_generation_nested_checked")
                 else:
                     exp = _dedupe(child_prev.get(h, list(ignoreref.DEFAULTS)) + want)
                     child_prev[h] = exp
+                if sf_gen:
+                    cs.count("sf_generations_checked")
                 if got != exp:
                     cs.violation(
                         "ignore-list-not-accumulated",
